@@ -2,3 +2,5 @@
 Importing this package registers every class model and contract."""
 from . import model  # noqa: F401  class tables, ghost state, shared predicates
 from . import engines  # noqa: F401
+from . import callbacks  # noqa: F401
+from . import statemachine  # noqa: F401
